@@ -65,6 +65,9 @@ pub enum GenerateError {
     /// Bind group index is beyond the argument buffers we can generate
     UnsupportedBindGroupIndex,
 
+    /// A global that is an input to the shader but not a resource has nowhere to be bound
+    UnsupportedGlobalConstant,
+
     /// Metal does not support matrix with width or height of 1
     UnsupportedUnitMatrix,
 
